@@ -1,5 +1,5 @@
 (* Props/C28.v — Vacuum preserves the database.  Only statements, `exact`, Print Assumptions. *)
-From NDB Require Import Store.Pager Store.Vacuum Store.Vacuum_proofs Store.Vacuum_complete.
+From NDB Require Import Store.Pager Store.Vacuum Store.Vacuum_proofs Store.Vacuum_complete Store.Readers Store.Readers_proofs.
 
 (* vacuum.rs and csr.rs agree on the segment meta page (magic, counts, header, number of page lists incl. the
    reverse arrays) and on the node-table page range; the constants are regenerated from both source files *)
@@ -54,3 +54,21 @@ Definition C28_preserves_typed_statement : Prop :=
 Theorem C28_preserves_typed : C28_preserves_typed_statement.
 Proof. exact vacuum_preserves_typed. Qed.
 Print Assumptions C28_preserves_typed.
+
+(* the engine's read paths, modelled as page-reading programs (Store/Readers.v: Pager::open, IdMap::load, catalog,
+   CsrSegment::load, blob chain read, B-tree descent + sibling scan with arbitrary key comparisons, lookups in the
+   property / index / HNSW trees followed by a blob read), are rooted, for every heap and every session *)
+Definition C28_read_paths_rooted_statement : Prop :=
+  forall h r fuel qs l, Forall (valid_query r) qs -> rooted h r (rd_session fuel r qs l).
+Theorem C28_read_paths_rooted : C28_read_paths_rooted_statement.
+Proof. exact session_rooted. Qed.
+Print Assumptions C28_read_paths_rooted.
+
+(* dump (open (vacuum d)) = dump (open d) for every such session on a well-typed heap *)
+Definition C28_sessions_preserved_statement : Prop :=
+  forall ty h r vis h' fuel qs l,
+    well_typed ty h r -> vacuum h r = Ok (vis, h') -> Forall (valid_query r) qs ->
+    run_reader h' (rd_session fuel r qs l) = run_reader h (rd_session fuel r qs l).
+Theorem C28_sessions_preserved : C28_sessions_preserved_statement.
+Proof. exact vacuum_preserves_sessions. Qed.
+Print Assumptions C28_sessions_preserved.
